@@ -53,6 +53,14 @@ def step (os : OState) (line : String) : OState × String :=
   | "fl" :: _ =>
     let (m, v) := Flight.step fs obs
     (os, m ++ "\t" ++ v)
+  | "rr" :: _ =>
+    -- C16 end to end: whatever bytes arrive as a request head, the client gets a well-formed HTTP response
+    (os, (if obs.startsWith "status:" then obs else "status:any") ++ "\t" ++
+      (if obs.startsWith "status:" then "ok"
+       else if obs.startsWith "panic" then "bad:panic"
+       else if obs = "timeout" then "bad:request-left-without-response"
+       else if obs = "closed" || obs = "garbled" then "bad:request-left-without-response"
+       else "bad:" ++ obs))
   | "rs" :: _ =>
     -- C15 dynamic scenarios: the op itself only has to complete; the race detector's reports arrive as `ac race` lines
     (os, "completed\t" ++ (if obs = "completed" then "ok" else if obs.startsWith "HANG" then "bad:operation-does-not-complete"
